@@ -49,6 +49,10 @@ func streamHistories(c *Ctx, cfg HistCfg, what string) {
 		"index create/drop interleaved; every operation's result compared impl vs Lean model vs Lean spec; non-trivial = distinct (operation, canonical result) where the result is not an error and, for queries, at least one document matched and one did not"
 	dr := StartDriver(c.DriverBin)
 	defer dr.Close()
+	if !c.KnownDone {
+		replayKnownFindings(c, dr)
+		c.KnownDone = true
+	}
 	nHist := c.N(60, 1500)
 	dm := Domain{IntsWithin2p53: true, NoNegTimes: true}
 	for _, be := range backendsAll {
